@@ -199,8 +199,8 @@ Section FkOpen.
 
   Lemma fk_arith : forall op r acc, fk (arith op acc r).
   Proof.
-    induction r as [|b r IH]; simpl; intros acc; [apply fk_ret|].
-    destruct acc; try apply fk_raise. destruct b; try apply fk_raise. apply IH.
+    induction r as [|b r IH]; simpl; intros acc; [destruct acc; first [apply fk_ret|apply fk_raise]|].
+    destruct acc; try apply fk_raise; destruct b; try apply fk_raise. apply IH.
   Qed.
 
   Lemma fk_compare_prim : forall test args, fk (compare_prim test args).
